@@ -53,7 +53,7 @@ PROPS["C02"] = {
     "level": "model_checking",
     "harness": ["C02_", "C03_Lemma"],
     "tiers": {
-        "quick": {"timeout": "20s", "maxsteps": 8000000, "casecap": 1100, "bounds": "encoding lemmas: all 42 opcodes x full operand ranges (8/16/32 bit); VM decoders: 4 jump opcodes x all 2^32 targets, OpConstant/OpGetGlobal/OpSetGlobal/OpGetLocal x full index range; monitor: 44 catalog programs, int inputs a,b (full int64, or -1..3 where they bound a loop), bool c. Generated grammar family (gen.go): every statement sequence of <= 2 nodes from 13 atoms (r += x, x = y + 1, y++, m.k += x, block-scoped declaration, immediately-invoked closure reading a captured variable, closure writing a captured variable, closure over three variables, block-local escaping in a closure, self-recursive local function, break, continue, return) and 8 wrappers (if, if-else, if with init, 3-clause for, for-in, condition-only for, endless for with break, function literal + call), plus every nesting W(W'(atom)) and sibling blocks W(escape); W'(atom), rendered in 4 variable-placement contexts (top level: globals; function body: parameters/locals; closure: captured parameter/locals; loop inside a function) - 2506 programs, inputs a, b full int64 and c bool symbolic: static verifier + VM monitor on each; the optimizer lemma of C03 (arbitrary streams of 2..3 instructions with symbolic operand bytes) for the clause 'every path ends in a return'", "cross": 1},
+        "quick": {"timeout": "20s", "maxsteps": 8000000, "casecap": 1100, "bounds": "encoding lemmas: all 42 opcodes x full operand ranges (8/16/32 bit); VM decoders: 4 jump opcodes x all 2^32 targets, OpConstant/OpGetGlobal/OpSetGlobal/OpGetLocal x full index range; monitor: 44 catalog programs, int inputs a,b (full int64, or -1..3 where they bound a loop), bool c. Generated grammar family (gen.go): every statement sequence of <= 2 nodes from 13 atoms (r += x, x = y + 1, y++, m.k += x, block-scoped declaration, immediately-invoked closure reading a captured variable, closure writing a captured variable, closure over three variables, block-local escaping in a closure, self-recursive local function, break, continue, return) and 8 wrappers (if, if-else, if with init, 3-clause for, for-in, condition-only for, endless for with break, function literal + call), plus every nesting W(W'(atom)) and sibling blocks W(escape); W'(atom), rendered in 4 variable-placement contexts (top level: globals; function body: parameters/locals; closure: captured parameter/locals; loop inside a function) - 2506 programs, inputs a, b full int64 and c bool symbolic: static verifier + VM monitor on each; the optimizer lemma of C03 (arbitrary streams of 2..3 instructions with symbolic operand bytes, 4 instructions over the control-flow core) for the clause 'every path ends in a return'", "cross": 1},
         "thorough": {"timeout": "60s", "maxsteps": 8000000, "casecap": 1100, "bounds": "as quick (the catalog and operand ranges are the bound). Generated grammar family (gen.go): every statement sequence of <= 3 nodes (13 atoms, 8 wrappers) in 4 variable-placement contexts - 22092 programs, inputs a, b full int64 and c bool symbolic: static verifier + VM monitor on each", "cross": 2},
     },
     "reach": {"C02_GenMonitor": ["genmonitor"], "C02_Encoding": ["enc"], "C02_DecodeJump": ["decjump"], "C02_DecodeIndex": ["decidx"], "C02_Monitor": ["monitor"], "C03_Lemma": ["lemma"]},
@@ -70,7 +70,7 @@ PROPS["C03"] = {
     "level": "translation_validation",
     "harness": ["C03_"],
     "tiers": {
-        "quick": {"timeout": "20s", "maxsteps": 8000000, "bounds": "twin compile (with / without dead-code elimination) of 12 dead-code programs + 44 catalog + 9 failing programs, inputs a,b int64 (or -1..3 where they bound loops), c bool: identical globals, identical error text incl. positions; optimizer lemma on arbitrary streams of 2..3 instructions from {TRUE,POP,RET 0/1,JMP,JMPF,ANDJMP,ORJMP,GETL} with jump targets case-split over every instruction boundary and the end. Generated grammar family (gen.go): every statement sequence of <= 2 nodes from 13 atoms (r += x, x = y + 1, y++, m.k += x, block-scoped declaration, immediately-invoked closure reading a captured variable, closure writing a captured variable, closure over three variables, block-local escaping in a closure, self-recursive local function, break, continue, return) and 8 wrappers (if, if-else, if with init, 3-clause for, for-in, condition-only for, endless for with break, function literal + call), plus every nesting W(W'(atom)) and sibling blocks W(escape); W'(atom), rendered in 4 variable-placement contexts (top level: globals; function body: parameters/locals; closure: captured parameter/locals; loop inside a function) - 2506 programs, inputs a, b full int64 and c bool symbolic: twin compile of each; twin compile of the generated failing programs (one failing statement - int + undefined, -map, for-in over an int, call of an int - at every atom position of every sequence of <= 2 nodes, every nesting W(W'(fail)), and directly after eliminated code W(exit; atom); fail), under both Go-map iteration orders the engine offers; decode/re-encode lemma of iterateInstructions: all 42 opcodes x full operand ranges; optimizer lemma with symbolic operand bytes of GETL/BINARYOP (8 bit), CONST (16 bit), CALL (2 x 8 bit)", "cross": 1},
+        "quick": {"timeout": "20s", "maxsteps": 8000000, "bounds": "twin compile (with / without dead-code elimination) of 12 dead-code programs + 44 catalog + 9 failing programs, inputs a,b int64 (or -1..3 where they bound loops), c bool: identical globals, identical error text incl. positions; optimizer lemma on arbitrary streams of 2..3 instructions from {TRUE,POP,RET 0/1,JMP,JMPF,ANDJMP,ORJMP,GETL,BINARYOP,CONST,CALL} and of 4 instructions from {POP,RET 0/1,JMP,JMPF,ORJMP} with jump targets case-split over every instruction boundary and the end. Generated grammar family (gen.go): every statement sequence of <= 2 nodes from 13 atoms (r += x, x = y + 1, y++, m.k += x, block-scoped declaration, immediately-invoked closure reading a captured variable, closure writing a captured variable, closure over three variables, block-local escaping in a closure, self-recursive local function, break, continue, return) and 8 wrappers (if, if-else, if with init, 3-clause for, for-in, condition-only for, endless for with break, function literal + call), plus every nesting W(W'(atom)) and sibling blocks W(escape); W'(atom), rendered in 4 variable-placement contexts (top level: globals; function body: parameters/locals; closure: captured parameter/locals; loop inside a function) - 2506 programs, inputs a, b full int64 and c bool symbolic: twin compile of each; twin compile of the generated failing programs (one failing statement - int + undefined, -map, for-in over an int, call of an int - at every atom position of every sequence of <= 2 nodes, every nesting W(W'(fail)), and directly after eliminated code W(exit; atom); fail), under both Go-map iteration orders the engine offers; decode/re-encode lemma of iterateInstructions: all 42 opcodes x full operand ranges; optimizer lemma with symbolic operand bytes of GETL/BINARYOP (8 bit), CONST (16 bit), CALL (2 x 8 bit)", "cross": 1},
         "thorough": {"timeout": "60s", "maxsteps": 8000000, "bounds": "as quick; optimizer lemma on streams of 2..5 instructions. Generated grammar family (gen.go): every statement sequence of <= 3 nodes (13 atoms, 8 wrappers) in 4 variable-placement contexts - 22092 programs, inputs a, b full int64 and c bool symbolic: twin compile of each", "cross": 2},
     },
     "reach": {"C03_TwinGen": ["twingen"], "C03_TwinFail": ["twinfail"], "C03_Iterate": ["iterate"], "C03_TwinDead": ["twin"], "C03_TwinCatalog": ["twincat"], "C03_Lemma": ["lemma"]},
@@ -90,7 +90,7 @@ PROPS["C09"] = {
         "quick": {"timeout": "20s", "maxsteps": 8000000, "bounds": "10 constructions (immutable/freeze of arrays and maps, nested, storage with spare capacity, freeze of immutable, module export, builtin-module table) x sequences of 1..2 operations from 34 array / 15 map operation templates (incl. the value spread into variadic and fixed parameters) (index/selector assignment, slicing (also empty slices i:i) + writes/append/splice, append + writes, + + writes, copy + writes, splice, delete, for-in with writes, writes through nested/derived/wrapped values and through a function parameter); indices i, j, written value v and element payloads a, b are symbolic int64", "cross": 2},
         "thorough": {"timeout": "60s", "maxsteps": 8000000, "bounds": "as quick (sequence length 1..2); freeze laws on 5 shapes incl. shared sub-structure", "cross": 3},
     },
-    "reach": {"C09_Ops": ["ops"], "C09_Freeze": ["freeze"]},
+    "reach": {"C09_FreezeNest": ["freezenest"], "C09_Ops": ["ops"], "C09_Freeze": ["freeze"]},
     "assumptions": [
         "the written value v differs from every original element payload, so 'unchanged' is observable",
         "for shallow-immutable values (immutable(...), module export, builtin table) only the value's own slots are protected: nested mutable containers may change (property: 'merely shallow-immutable')",
@@ -143,7 +143,7 @@ PROPS["C01"] = {
         "quick": {"timeout": "20s", "maxsteps": 12000000, "bounds": "out := a OP b for 19 binary operators x U(0,2) x 8-shape lite universe; 4 unary operators x U(1,2); 10 index/slice/selector read+write programs x U(1,2) with symbolic int (or lite) indices; 31 builtins x 0..2 arguments (3 for splice, range); 44 catalog + 9 failing programs with symbolic int/bool inputs; every run compared with the reference evaluator refsem (outcome class and every global). Generated grammar family (gen.go): every statement sequence of <= 2 nodes from 13 atoms (r += x, x = y + 1, y++, m.k += x, block-scoped declaration, immediately-invoked closure reading a captured variable, closure writing a captured variable, closure over three variables, block-local escaping in a closure, self-recursive local function, break, continue, return) and 8 wrappers (if, if-else, if with init, 3-clause for, for-in, condition-only for, endless for with break, function literal + call), plus every nesting W(W'(atom)) and sibling blocks W(escape); W'(atom), rendered in 4 variable-placement contexts (top level: globals; function body: parameters/locals; closure: captured parameter/locals; loop inside a function) - 2506 programs, inputs a, b full int64 and c bool symbolic, each compared with the reference evaluator", "cross": 1},
         "thorough": {"timeout": "60s", "maxsteps": 12000000, "bounds": "as quick with U(.,3). Generated grammar family (gen.go): every statement sequence of <= 3 nodes (13 atoms, 8 wrappers) in 4 variable-placement contexts - 22092 programs, inputs a, b full int64 and c bool symbolic, each compared with the reference evaluator", "cross": 2},
     },
-    "reach": {"C01_Gen": ["gen"], "C01_BinaryOps": ["binops"], "C01_UnaryOps": ["unops"], "C01_Indexing": ["indexing"], "C01_Builtins": ["builtins"], "C01_Catalog": ["catalog"]},
+    "reach": {"C01_Alias": ["alias"], "C01_Gen": ["gen"], "C01_BinaryOps": ["binops"], "C01_UnaryOps": ["unops"], "C01_Indexing": ["indexing"], "C01_Builtins": ["builtins"], "C01_Catalog": ["catalog"]},
     "assumptions": [
         "oracle: package refsem (harness/refsem), an AST-walking evaluator written from docs/*.md (see refsem/NOTES.md for every decision where the documents are silent or inconsistent); it is validated natively against the real implementation on 1489 programs + operator/builtin matrices (go test ./refsem/) and is itself executed symbolically here",
         "the right operand of * / % comes from a boundary set (symbolic-by-symbolic 64-bit multiply/divide stalls every solver back end); values that get rendered as decimal text (string + x, string(x), map index) come from boundary sets",
@@ -287,7 +287,7 @@ PROPS["C17"] = {
         "quick": {"timeout": "20s", "maxsteps": 12000000, "casecap": 128, "bounds": "directive = '%' + 1..2 symbolic bytes within the documented directive alphabet (flags # 0 + - space, digits 1 2 3 9, . * [ ], all documented verbs) x 17 argument values of the five mapped types (boundary ints incl. MinInt64 and a non-BMP code point, special floats -0 NaN Inf 1e21 1e-7, non-UTF-8 string, bytes) with '*' widths in -2..2; totality on '%' + 1..3 arbitrary bytes with 0..2 arguments; 24 explicit-index/flag/width formats x 3 argument kinds", "cross": 2},
         "thorough": {"timeout": "60s", "maxsteps": 12000000, "casecap": 128, "bounds": "directive of 1..3 symbolic bytes; rest as quick", "cross": 3},
     },
-    "reach": {"C17_Star": ["star"], "C17_Sequence": ["sequence"], "C17_Directive": ["directive"], "C17_Total": ["total"], "C17_Indexed": ["indexed"]},
+    "reach": {"C17_FlagPairs": ["flagpairs"], "C17_StarOperand": ["staroperand"], "C17_Star": ["star"], "C17_Sequence": ["sequence"], "C17_Directive": ["directive"], "C17_Total": ["total"], "C17_Indexed": ["indexed"]},
     "assumptions": [
         "both formatters are executed by the engine: tengo.Format and Go's real fmt.Sprintf (non-reflective paths for int64/float64/string/bool/[]byte; reflect.TypeOf(x).String() emulated for %T and bad-verb texts)",
         "argument values are a boundary set (decimal and shortest-float rendering of symbolic numbers is outside the solver's reach); the directive bytes are symbolic",
